@@ -338,6 +338,16 @@ func c10run(c *fw.Ctx, idx int) {
 		{Path: "/dumplib.jet", Body: []prog.Node{&prog.RawFail{Src: `{{block b5()}}5{{end}}{{block b4()}}4{{end}}`}}},
 	}}
 	units = append(units, &c10unit{name: "dump-lists-blocks", p: dumpb})
+	// LetGlobal called in an execution without variables binds for that execution only: a later execution on the same Set
+	// (also without variables) does not see the name
+	lgp := func(main string) *prog.Program {
+		return &prog.Program{Main: main, Vars: map[string]prog.Value{}, Files: []*prog.File{
+			{Path: "/letg.jet", Body: []prog.Node{&prog.RawFail{Src: `{{ letg("flashvar", "saved") }}[{{ isset(flashvar) }}]`}}},
+			{Path: "/seeg.jet", Body: []prog.Node{&prog.RawFail{Src: `[{{ isset(flashvar) }}{{ isset(leakvar) }}]`}}},
+		}}
+	}
+	lgFirst := &c10unit{name: "nilvars-letglobal-without-any-scope", p: lgp("/letg.jet")}
+	units = append(units, lgFirst, &c10unit{name: "nilvars-probe-on-the-same-set", p: lgp("/seeg.jet"), share: lgFirst})
 	var incFirst *c10unit
 	for _, v := range [][2]string{{"a.jet", "/parts/"}, {"b.jet", "/alt/"}, {"missing.jet", "/parts/"}, {"b.jet", "/parts/"}} {
 		u := &c10unit{name: "include-computed-" + strings.TrimSuffix(v[0], ".jet") + "-" + strings.Trim(v[1], "/"), p: incp, share: incFirst}
